@@ -77,6 +77,7 @@ def run(ctx):
                 for gname in ("future_group", "stream_group"):
                     grouplike.rule_insert(ctx, M, gname, "C01.SCAN")
                     grouplike.rule_remove(ctx, M, gname, "C01.SCAN")
+                    grouplike.rule_extend(ctx, M, gname, "C01.SCAN")
                 gu = grouplike.group_unit(M, "future_group")
                 if gu is not None:
                     c11.rule_done(ctx, M, gu)
